@@ -4,7 +4,7 @@
    the typed elements built from the blocks, KyGananciasSolares.txt and NewBDL_O.tbl are covered by
    the correspondence only. *)
 From Coq Require Import NArith QArith Bool List String.
-From CTE Require Import Model.Bdl Model.BdlDoc Model.Kyg Model.Tbl Model.BdlTyped Proofs.BdlP Proofs.BdlPreambleP Proofs.KygP Proofs.TblP Proofs.BdlTypedP.
+From CTE Require Import Model.Bdl Model.BdlDoc Model.Kyg Model.Tbl Model.BdlTyped Model.BdlTypedEnv Proofs.BdlP Proofs.BdlPreambleP Proofs.KygP Proofs.TblP Proofs.BdlTypedP.
 Import ListNotations.
 
 (* layout never matters: indentation, trailing blanks, CR before LF, blank lines, comment and LIDER
@@ -82,6 +82,10 @@ Theorem C18_floor_defaults : forall b h p, get_num "X" (b_attrs b) = None -> get
   get_num "Z" (b_attrs b) = None -> get_num "MULTIPLIER" (b_attrs b) = None ->
   floor_of b = Ok (mkTFl (b_name b) (NConst 0%Q) h (NConst 1%Q) p).
 Proof. exact floor_defaults. Qed.
+
+(* walls: a written TILT is the wall's tilt (the LOCATION default applies only without it) *)
+Theorem C18_wall_written_tilt_wins : forall b w tk, wall_of b = Ok w -> get_num "TILT" (b_attrs b) = Some tk -> twl_tilt w = NTok tk.
+Proof. exact wall_written_tilt_wins. Qed.
 
 (* NewBDL_O.tbl: an element / a space written as a name line and a values line (any blanks in front of the
    values) is read back value by value *)
